@@ -333,6 +333,7 @@ def run(chk, prog, tier):
     extent_common.check_scan_extent(chk, prog)
     check_fast_subset(chk, prog)
     check_offsets_monotone(chk, prog)
+    check_stale_count(chk, prog)
     check_clear_resets(chk, prog)
 
 
@@ -439,3 +440,77 @@ def check_offsets_monotone(chk, prog):
             chk.judge(ok, R, f"{root}:offsets-push{'@closure' if f.kind == 'closure' else ''}", "offsets only grows by a strictly larger sort value (or from empty)",
                       "an offsets entry can be pushed without the strictly-greater test: duplicate or unsorted keys break timestamp-range subsets", c.loc)
     chk.floor(R, n, 5, "pushes onto offsets")
+
+
+def check_stale_count(chk, prog):
+    R = chk.rule("R-STALE-COUNT", "RowBuffer::set_stale / set_stale_shared return whether the row was ALREADY stale; wherever that result feeds a stale-row counter it is negated first "
+                 "(`+= !was_stale as usize`) or the increment sits on the was-not-stale branch: stale_rows counts the rows newly marked stale (observers take their fast path on stale_rows == 0)")
+    from ..util import region_of_branch
+    n = 0
+    for f in prog.lib_fns(["egglog_core_relations"]):
+        for c in f.calls:
+            if not (c.p.endswith("RowBuffer::set_stale") or c.p.endswith("::set_stale_shared")) or c.dest[1]:
+                continue
+            if f.locals[c.dest[0]] != "bool":
+                continue
+            # forward: (local, negated?)
+            seen = {}
+            work = [(c.dest[0], False)]
+            counted = []   # (negated?, line)
+            branched = []  # (switch bb, negated?)
+            while work:
+                l, neg = work.pop()
+                if (l, neg) in seen:
+                    continue
+                seen[(l, neg)] = True
+                for i, j, s in f.assigns():
+                    rv = s[2]
+                    ops = [o for o in rv_ops(rv) if o[0] in ("c", "m") and o[1][0] == l and not o[1][1]]
+                    if not ops:
+                        continue
+                    if s[1][1]:
+                        continue
+                    if rv[0] == "use" or rv[0] == "cast":
+                        work.append((s[1][0], neg))
+                    elif rv[0] == "un" and rv[1] == "Not":
+                        work.append((s[1][0], not neg))
+                    elif rv[0] == "bin" and rv[1] in ("Add", "AddWithOverflow", "AddUnchecked"):
+                        counted.append((neg, s[3]))
+                for b in f.live:
+                    t = f.term(b)
+                    if t[0] == "switch" and t[1][0] in ("c", "m") and t[1][1][0] == l and not t[1][1][1]:
+                        branched.append((b, neg))
+                for c2 in f.calls:
+                    # debug assertions etc. are irrelevant
+                    pass
+            if not counted and not branched:
+                continue
+            n += 1
+            root = f.root or f.name
+            bad = [line for (neg, line) in counted if not neg]
+            for (b, neg) in branched:
+                t = f.term(b)
+                zero = [tb for v, tb in t[2] if v == "0"]
+                if not zero:
+                    continue
+                was_stale_true = t[3] if not neg else zero[0]
+                reg = region_of_branch(f, b, was_stale_true) | {was_stale_true}
+                for i, j, s in f.assigns():
+                    if i in reg and s[2][0] == "bin" and s[2][1] in ("Add", "AddWithOverflow"):
+                        names = [e[2] for e in s[1][1] if not isinstance(e, str) and e[0] == "f"]
+                        src = []
+                        for o in rv_ops(s[2]):
+                            if o[0] in ("c", "m"):
+                                src += [e[2] for e in o[1][1] if not isinstance(e, str) and e[0] == "f"]
+                        if "stale_rows" in names + src:
+                            bad.append(s[3])
+            chk.judge(not bad, R, f"{root}:{c.p.rsplit('::', 1)[-1]}-result{'@closure' if f.kind == 'closure' else ''}",
+                      "the stale counter only counts rows that were not stale before",
+                      f"the stale-row counter is advanced by `was already stale` instead of `newly stale` (line {bad}): stale_rows stays 0 after removals, observers keep their no-stale fast path and return removed rows",
+                      c.loc)
+    chk.floor(R, n, 2, "set_stale results feeding a stale counter (Rows::set_stale, parallel_delete)")
+
+
+def rv_ops(rv):
+    from ..facts import rv_operands
+    return rv_operands(rv)
